@@ -713,6 +713,45 @@ class TrStackAdd(Tr):
         return Tr.stmt0(self, s, ind)
 
 
+class TrHeader(Tr):
+    """the header block of `DicomStack.to_nifti`: `_files_info` is the list of the files' acquisition times (None when a
+    file has none) in the current file order, times are integers; numpy on such lists: `np.array([f(x) for x in L])` is the list,
+    `a -= np.min(a)` subtracts the minimum from every element, `np.allclose(a, b)` is equality, `np.allclose(a, 0.0)` all zero"""
+
+    def e(self, n):
+        src = self.src(n)
+        if isinstance(n, ast.Call) and self.src(n.func) == 'np.array' and len(n.args) == 1 and isinstance(n.args[0], ast.ListComp):
+            lc = n.args[0]
+            g = lc.generators[0]
+            if len(lc.generators) == 1 and not g.ifs and isinstance(g.target, ast.Name) \
+                    and self.src(lc.elt) == "dcm_time_to_sec(%s[0]['AcquisitionTime'])" % g.target.id:
+                # a file without the element: KeyError
+                return '(← (%s).mapM pyGetKey)' % self.e(g.iter)
+        if isinstance(n, ast.Call) and self.src(n.func) == 'np.min' and len(n.args) == 1:
+            return '(← npMin %s)' % self.atom(n.args[0])
+        if isinstance(n, ast.Call) and self.src(n.func) == 'np.allclose' and len(n.args) == 2:
+            if isinstance(n.args[1], ast.Constant) and n.args[1].value == 0.0:
+                return '((%s).all fun x_ => x_ == 0)' % self.e(n.args[0])
+            return '(%s == %s)' % (self.e(n.args[0]), self.e(n.args[1]))
+        if isinstance(n, ast.Call) and isinstance(n.func, ast.Name) and n.func.id == 'all' and len(n.args) == 1 \
+                and isinstance(n.args[0], ast.GeneratorExp):
+            g = n.args[0].generators[0]
+            if self.src(n.args[0].elt) == "%s[0].get_meta('AcquisitionTime') is not None" % g.target.id:
+                return '((%s).all fun x_ => x_.isSome)' % self.e(g.iter)
+        return super().e(n)
+
+    def b(self, n):
+        if isinstance(n, ast.Call):
+            return self.e(n)
+        return super().b(n)
+
+    def stmt0(self, s, ind):
+        if isinstance(s, ast.AugAssign) and isinstance(s.op, ast.Sub) and isinstance(s.target, ast.Name):
+            x = s.target.id
+            return ['%slet m_ := %s' % (ind, self.e(s.value)), '%s%s := (%s).map fun x_ => x_ - m_' % (ind, x, x)]
+        return super().stmt0(s, ind)
+
+
 class TrChkOrder(Tr):
     """the thorough check of `_chk_order`: `_files_info[i][1]` is the sorting tuple (vector, time, position)"""
     PROJ = {0: '.1', 1: '.2.1', 2: '.2.2'}
@@ -839,6 +878,16 @@ def pyGet {β : Type} : Option β → Except PyErr β
   | some b => .ok b
   | none => .error PyErr.typeError
 
+/-- `np.min` of a non-empty array (ValueError for an empty one) -/
+def npMin : List Int → Except PyErr Int
+  | [] => .error PyErr.valueError
+  | x :: xs => .ok (xs.foldl min x)
+
+/-- `d[key]` of a dictionary entry that may be absent (KeyError) -/
+def pyGetKey {β : Type} : Option β → Except PyErr β
+  | some b => .ok b
+  | none => .error PyErr.keyError
+
 /-- `a // b` of naturals: `ZeroDivisionError` for a zero divisor -/
 def pyFloorDiv (a b : Nat) : Except PyErr Nat := if b == 0 then .error PyErr.zeroDivision else .ok (a / b)
 
@@ -863,6 +912,7 @@ GROUP_OF = {
     'copy_slice_dest': 'values', 'copy_slice_vals': 'values', 'get_changed_class': 'values',
     'copy_slice': 'subset', 'copy_sample': 'subset',
     'reclassify': 'insert', 'change_class': 'insert', 'insert_slice': 'insert', 'insert_non_slice': 'insert', 'insert_sample': 'insert',
+    'header_slice_times': 'header',
     'chk_equal': 'stackadd', 'chk_close': 'stackadd', 'chk_congruent': 'stackadd', 'add_dcm': 'stackadd',
     'get_data_trim': 'data', 'file_idx_volume': 'data', 'file_idx_slice': 'data', 'get_data': 'data',
 }
@@ -880,6 +930,7 @@ GROUP_IMPORTS = {
     'insert': ['DcmVerif.Generated.Code_values'],
     'subset': ['DcmVerif.Generated.Code_values', 'DcmVerif.Generated.Code_simplify'],
     'stackadd': ['DcmVerif.Generated.PyPrelude', 'DcmVerif.Model.StackAdd'],
+    'header': ['DcmVerif.Generated.PyPrelude'],
 }
 GEN_DIR = os.environ.get('GEN_CODE_DIR', os.path.normpath(os.path.join(HERE, '..', 'lean', 'DcmVerif', 'Generated')))
 
@@ -1359,6 +1410,29 @@ def translate():
              per_key(f.body) + [ast.parse('return').body[0]], tr,
              '`DcmMetaExtension._copy_sample` (dcmmeta.py) for one key of `other` held under `src_class` with the values `vals`',
              prologue=['let mut d_ := d', 'let valid_ ← get_valid_classes self_shape'])
+    # ---- DicomStack.to_nifti: slice times handed to set_slice_times (group `header`)
+    f = find_func(ds, 'DicomStack', 'to_nifti')
+    blk = None
+    if f is not None:
+        for i_, st in enumerate(f.body):
+            if isinstance(st, ast.Assign) and ast.unparse(st.targets[0]) == 'has_acq_time' and i_ + 1 < len(f.body) \
+                    and isinstance(f.body[i_ + 1], ast.If):
+                outer = copy.deepcopy(f.body[i_ + 1])
+                last = outer.body[-1] if outer.body else None
+                if isinstance(last, ast.If) and ast.unparse(last.test) == 'is_consistent and (not np.allclose(slice_times, 0.0))' \
+                        and not last.orelse and not outer.orelse:
+                    last.body = [ast.parse('return slice_times').body[0]]     # in place of the call of set_slice_times
+                    blk = [st, outer, ast.parse('return None').body[0]]
+    if blk is None:
+        missing.append('header_slice_times: statements has_acq_time = … if files_per_vol > 1 and has_acq_time: … not found')
+    else:
+        tr = TrHeader({'self._files_info': 'files'}, {})
+        tr.ret_optional = True
+        emit('header_slice_times', '(files_per_vol n_vols n_slices : Nat) (files : List (Option Int)) : Except PyErr (Option (List Int))',
+             blk, tr,
+             'the slice-timing block of `DicomStack.to_nifti` (dcmstack.py): the relative acquisition times of the first volume when '
+             'every file has a time, every later volume shows the same relative times and they are not all zero; the result is '
+             'what the code hands to `set_slice_times` (None: nothing is set)')
     # ---- check_valid
     f = find_func(dm, 'DcmMetaExtension', 'check_valid')
     if f is None:
